@@ -143,6 +143,18 @@ def rule_soft_sites(ctx):
             base = strip(atom[1])
             if any(nosite(q) == nosite(base) or (q[0] in ("errval", "residual") and nosite(strip(q[1])) == nosite(base)) for q in walk(arg)):
                 from_err = True
+            else:
+                # the result may be a phi (e.g. an injected failure or the real call): every alternative's error must be what is pushed
+                subs = {nosite(q) for q in walk(arg)}
+                subs |= {nosite(strip(q[1])) for q in walk(arg) if q[0] in ("errval", "residual")}
+                okall = True
+                for x in alts(base):
+                    if nosite(x) in subs:
+                        continue
+                    if x[0] == "agg" and x[2] == "Err" and nosite(dict(x[3])["0"]) in subs:
+                        continue
+                    okall = False
+                from_err = okall and len(alts(base)) > 1
             if s["what"] == "tid parse":
                 from_err = any(q[0] == "call" and q[1].split("::")[-1] == "file_name" for q in walk(arg))
             if s["variant"] and any(q[0] == "agg" and q[2] == s["variant"] for q in walk(arg)):
